@@ -208,13 +208,17 @@ def render_args(args, sep=" "):
     return sep.join(parts)
 
 
-def render(its, layout=None, gaps=None):
+def render(its, layout=None, gaps=None, over=None):
     """gaps: optional dict {gap_index: filler}; gap indices are positions in the flat token list produced here
-    (see token_gaps) - used by C04 to deviate single gaps from the default layout."""
+    (see token_gaps) - used by C04 to deviate single gaps from the default layout.
+    over: optional dict {token_index: text} replacing single tokens (one doccomment re-indented, one command name
+    respelled)."""
     lay = dict(DEFAULT_LAYOUT)
     if layout:
         lay.update(layout)
     toks, kinds = flat_tokens(its, lay)
+    for k, v in (over or {}).items():
+        toks[k] = v
     out = [lay["head"]]
     for n, t in enumerate(toks):
         out.append(t)
